@@ -524,6 +524,18 @@ CHECKS += [
          technique="lifted execution of qp.equal on z3 parameter terms with solver-decided forks; z3 QF_NRA matrix-identity proofs under the path condition"),
 ]
 
+CHECKS += [
+    dict(property_id="C57", category="other", engine=E1,
+         text="Partial (device primitives, symbolic amplitudes): StatePrep, AmplitudeEmbedding (pad_with, normalize) and BasisState / BasisEmbedding at the start of a circuit on 13 wire "
+              "subsets of a 3-wire register (sorted and non-sorted order), followed by gates with symbolic angles, through the REAL (lifted) default.qubit. The target amplitudes are "
+              "SYMBOLIC complex numbers (unit norm by a solver constraint, or arbitrary with normalize=True); z3 proves entry by entry that the final state equals the gates applied to "
+              "the embedding of the amplitudes by bit positions in the listed wire order, with padding and normalisation (state * ||x|| == x). Basis states: all bit patterns enumerated.",
+         note=PROOF_NOTE + " Category 'other' (partial): the decompositions (MottonenStatePreparation etc. compute angles with arccos / arctan2 of the amplitudes), MPSPrep, Superposition, "
+              "QROMStatePreparation, SumOfSlatersPrep, MultiplexerStatePreparation, CosineWindow, PartialUnaryStatePreparation, mid-circuit preparation and default.mixed are outside. "
+              "A hand-made mutant (inverse permutation in StatePrep.state_vector) is reported by 37 obligations.",
+         technique="lifted execution of default.qubit state preparation on z3 amplitude terms; z3 QF_NRA entry-wise equality proofs"),
+]
+
 _NOT_BUILT = "claimed in DESIGN.md §4 but its solver-based check is not built yet in this tree"
 NOT_APPLICABLE_REASONS = {
     "C06": "copy/pickle/pytree round-trips: object-graph identity and C-level (un)pickling; no symbolic dimension",
@@ -540,7 +552,6 @@ NOT_APPLICABLE_REASONS = {
     "C48": "interface agnosticism: torch/jax/autograd kernels cannot carry solver terms",
     "C52": "observable grouping: rustworkx/networkx colouring over discrete sets",
     "C55": "Lie-algebra tools: rank/independence via SVD/least squares",
-    "C57": "state preparation: angles from arccos/arctan2 of amplitudes",
     "C58": "block-encoding/oracle templates: QSVT/GQSP angle solvers, sqrtm/svd; no closed-form symbolic matrices",
     "C59": "Fourier tools: FFT and autodiff Jacobians",
     "C62": "quantum chemistry: integrals, SCF, PySCF",
